@@ -5,5 +5,5 @@ CONSTANTS
   Stride = 1
   Pairs = 600
   Randoms = 600
-  NBombs = 18
+  NBombs = 19
   RefStride = 1
